@@ -1,3 +1,6 @@
 //! Reference models.
+pub mod csv;
+pub mod decimal;
 pub mod grid;
 pub mod offcrypto;
+pub mod selftest_numcsv;
